@@ -253,6 +253,13 @@ def run_check(pid, tier, seed, replay=None):
     for payload, suffix in violations:
         path = write_replay(pid, payload)
         print("VIOLATION property=%s replay=%s%s" % (pid, path, suffix))
+        # (the replay file says it all; these lines are for a log that is read without the file at hand)
+        for c in (payload.get("cases") or [])[:3]:
+            print("  failing case: %s" % str(c.get("case"))[:400])
+            print("    impl: %s" % str(c.get("impl"))[:600])
+            print("    why: %s" % str(c.get("why") or c.get("spec"))[:400])
+        for b in (payload.get("no_longer_checks") or [])[:3]:
+            print("  no longer checks: %s" % json.dumps(b, ensure_ascii=False)[:600])
         rc = 1
 
     if not replay:
